@@ -142,6 +142,21 @@ theorem toInt_fin_inrange (t : ITy) (n : Bool) (r : ℚ)
   simp only [toInt, sval]
   rw [if_neg (by omega), if_neg (by omega)]
 
+/-- multiplying by the exact reciprocal of a positive constant is the same IEEE operation as dividing by it
+    (the exact result is the same rational, rounded once) — for every operand, specials included -/
+theorem mul_inv_eq_div (F : Fmt2) (x : FP) (c : ℚ) (hc : c ≠ 0) :
+    mul F x (.fin false c⁻¹) = div F x (.fin false c) := by
+  cases x with
+  | nan => simp [mul, div]
+  | inf a => simp [mul, div, hc]
+  | fin na a => simp [mul, div, hc, div_eq_mul_inv]
+
+/-- `i2f_shape` for the multiply-by-reciprocal spelling `(a as fN) * 2^-k` -/
+theorem i2fm_shape (F : Fmt2) (hp : 1 ≤ F.prec) (a : ℤ) (k : ℕ)
+    (hnorm : F.emin + k + F.prec ≤ 0) (hk : (k : ℤ) ≤ F.emax) (hb : |a| ≤ 2 ^ k) :
+    mul F (ofInt F a) (.fin false (((2 : ℚ) ^ k)⁻¹)) = specI2F F a k := by
+  rw [mul_inv_eq_div F _ _ (by positivity)]; exact i2f_shape F hp a k hnorm hk hb
+
 theorem f2i_shape (F : Fmt2) (n : Bool) (q : ℚ) (k : ℕ) (t : ITy)
     (hd : InDomain F n q) (hk : (k : ℤ) ≤ F.emax) (hlo : t.lo ≤ -(2 : ℤ) ^ k) (hhi : (2 : ℤ) ^ k - 1 ≤ t.hi) :
     toInt t (mul F (.fin n q) (.fin false ((2 : ℚ) ^ k))) = truncQ (sval n q * 2 ^ k)
